@@ -28,6 +28,14 @@ class UserReadiness(UserExc, _ReadinessError):
     """a ReadinessError raised by a node FUNCTION (e.g. from a helper node it runs): still a failure of that node"""
 
 
+class UserIndexError(UserExc, IndexError):
+    """an IndexError raised by a node FUNCTION: the library's own loops catch IndexError for their queue handling"""
+
+
+class UserKeyError(UserExc, KeyError):
+    """a KeyError raised by a node FUNCTION"""
+
+
 def lin(tag, k, args):
     CALLS.append((tag, list(args)))
     if tag in FAIL:
@@ -159,6 +167,10 @@ def chk(tag, k, args):
     CALLS.append((tag, list(args)))
     if any(a == -7 for a in args):
         raise UserReadiness(tag)     # the user's function raises the library's own ReadinessError type
+    if any(a == -8 for a in args):
+        raise UserIndexError(tag)    # ... or a builtin exception type the library's own loops also catch
+    if any(a == -9 for a in args):
+        raise UserKeyError(tag)
     if any(a < 0 for a in args):
         raise UserExc(tag)
     return (k + sum((i + 1) * a for i, a in enumerate(args))) % M
